@@ -114,6 +114,13 @@ pub fn gen_scenario(r: &mut Rng, big: bool) -> Scenario {
             }
         }
     }
+    // a thread whose stack pointer lies in the lowest mapping of the process, below the executable (with the shared page
+    // at its fixed low address): the mapping list is not in address order once the entry point's mapping has been
+    // moved to the front
+    if args.iter().any(|a| a == "-L") && nblock >= 1 && !args.iter().any(|a| a == "-w") && Rng::new(r.0 ^ 0xa54f_f53a_5f1d_36f1).chance(1, 2) {
+        args.push("-w".into());
+        args.push(format!("{}:{}", nblock, 0x208f00u64));
+    }
     Scenario { args, nblock }
 }
 
@@ -265,11 +272,59 @@ pub fn generate(prop: &str, seed: u64, tier: &str, out: &mut dyn std::io::Write)
     generate_counts(prop, seed, nsmall, nbig, per, "t", out);
     // the register-fetch fallback: a dumper that may not use PTRACE_GETREGSET (an old kernel, a seccomp policy that only
     // admits the classic requests) — in a worker process, since the filter cannot be removed again
+    // a dumper that has to read the target's memory with PTRACE_PEEKDATA (also in a worker)
+    if prop == "C07" {
+        generate_ptraceonly(prop, seed, if tier == "thorough" { 40 } else { 10 }, out);
+    }
     if prop == "C04" || prop == "C05" || prop == "C01" {
         let n = if tier == "thorough" { 12 } else { 3 };
         for l in crate::live::run_worker(&["worker".to_string(), "seccomp".to_string(), prop.to_string(), seed.to_string(), n.to_string()]).0 {
             writeln!(out, "{}", l).unwrap();
         }
+    }
+}
+
+/// Dumps by a dumper that can read the target's memory word by word only (the request runs on a thread under `forbid_fast_reads`):
+/// application regions of every length mod 8 that end exactly where mapped memory ends (a hole behind them), and crash
+/// instruction pointers a few bytes before the end of the last mapped page — the reads whose last, partial word cannot
+/// be fetched at its own address.
+pub fn generate_ptraceonly(prop: &str, seed: u64, n: u64, out: &mut dyn std::io::Write) {
+    for i in 0..n {
+        let mut r = Rng::for_case(seed, 7107, i);
+        let nblock = r.range(1, 3) as usize;
+        let lens: Vec<u64> = (0..r.range(2, 5)).map(|_| *r.pick(&[1u64, 3, 5, 7, 9, 13, 21, 100, 4093, 4099, 8, 16])).collect();
+        let mut args = vec!["-t".to_string(), nblock.to_string()];
+        for l in &lens {
+            args.push("-r".into());
+            args.push(format!("{}:u", l));
+        }
+        let t = match Target::spawn(&args) {
+            Ok(t) => t,
+            Err(e) => {
+                writeln!(out, "{} y{}-{} kind=spawnfail why={}", prop, seed, i, e.replace(' ', "_")).unwrap();
+                continue;
+            }
+        };
+        let mut cfg = DumpCfg::default();
+        cfg.ptrace_only = true;
+        cfg.blamed = t.threads[r.below(t.threads.len() as u64) as usize].tid;
+        for reg in t.desc["regions"].as_array().unwrap() {
+            cfg.app_memory.push((reg["addr"].as_u64().unwrap(), reg["len"].as_u64().unwrap()));
+        }
+        if r.chance(2, 3) {
+            // crash context: instruction pointer 1 … 60 bytes before the end of a pattern region (window clipped by the
+            // end of the mapping to an odd length)
+            let reg = &t.desc["regions"][0];
+            let end = reg["addr"].as_u64().unwrap() + reg["len"].as_u64().unwrap();
+            let bt = t.threads.iter().find(|x| x.tid == cfg.blamed).unwrap();
+            let mut c = CrashSpec { tid: bt.tid, signo: 11, code: 1, addr: end, fp_seed: r.next(), ..Default::default() };
+            c.gregs[libc::REG_RIP as usize] = (end - r.range(1, 60)) as i64;
+            c.gregs[libc::REG_RSP as usize] = t.read_u64(bt.regs_addr + 80) as i64;
+            cfg.crash = Some(c);
+        }
+        let mut dest = RecDest::new(vec![], 0);
+        let o = dump_case(prop, &format!("y{}-{}", seed, i), &t, &cfg, &mut dest, &format!("args={}", args.join(",")));
+        writeln!(out, "{}", o.line).unwrap();
     }
 }
 
@@ -315,6 +370,26 @@ pub fn generate_counts(prop: &str, seed: u64, nsmall: u64, nbig: u64, per: usize
             let c0 = r.bytes(c0len);
             let start = if c0len == 0 { 0 } else { r.below(c0len as u64 + 1) };
             let mut dest = RecDest::new(c0, start);
+            // C09: in some cases the destination refuses one of the last calls of the request (the final flushes come
+            // after the target was resumed): the request has to fail, or what it returns has to be what the destination
+            // holds. The number of calls is learnt from a request that is let through.
+            let mut late_fail = String::new();
+            if prop == "C09" {
+                let mut r6 = Rng::for_case(seed, 194, i * 16 + k as u64);
+                if r6.chance(1, 3) {
+                    let mut probe = RecDest::new(vec![], 0);
+                    let mut pw = writer_for(&t, &cfg);
+                    t.wait_parked();
+                    if pw.dump(&mut probe).is_ok() {
+                        let back = r6.below(9) as usize;
+                        if probe.calls > back {
+                            dest.script.insert(probe.calls - 1 - back, crate::recdest::Resp::Fail);
+                            late_fail = format!(" latefail={}of{}", probe.calls - 1 - back, probe.calls);
+                        }
+                    }
+                    t.wait_parked();
+                }
+            }
             let dso = &t.desc["dso"];
             let dso_field = if dso["n"].as_u64().unwrap_or(0) > 0 {
                 let maps: Vec<String> = dso["maps"].as_array().unwrap().iter().map(|m| {
@@ -339,7 +414,7 @@ pub fn generate_counts(prop: &str, seed: u64, nsmall: u64, nbig: u64, per: usize
                 fc.set_enabled(minidump_writer::FailSpotName::CpuInfoFileOpen, true);
                 fail_client = Some(fc);
             }
-            let o = dump_case(prop, &format!("{}{}-{}-{}", idp, seed, i, k), &t, &cfg, &mut dest, &format!("args={}{}{}", sc.args.join(","), dso_field, if cpufail { " cpufail=1" } else { "" }));
+            let o = dump_case(prop, &format!("{}{}-{}-{}", idp, seed, i, k), &t, &cfg, &mut dest, &format!("args={}{}{}{}", sc.args.join(","), dso_field, if cpufail { " cpufail=1" } else { "" }, late_fail));
             if let Some(mut fc) = fail_client {
                 fc.set_enabled(minidump_writer::FailSpotName::CpuInfoFileOpen, false);
             }
